@@ -417,6 +417,52 @@ func runC18(r *Run) {
 	}
 
 	// access-list conversions (the Accesses ↔ AccessList leg of the field maps): every tuple gets its own key slice
+	r.Rule("R6", "PATH+FLOW.sender-recovered: MsgEthereumTx.GetSender returns an address only after an error-checked signer.Sender(msg.AsTransaction()) on every success path, the returned address is that call's result, and the signer is built from the chainID parameter; the From field (a cache that anyone assembling the envelope can fill) is never the source of the returned sender. GetSigners returns that sender")
+	if gs, ok := P.FnOK("(*" + evmTypes + ".MsgEthereumTx).GetSender"); ok {
+		isSender := isCallMatching(func(ci CallInfo) bool { return ci.Name == "Sender" && ci.Invoke })
+		w := PathQuery{Fn: gs, Block: isSender, Target: isSuccessExit}.Search()
+		calls := findCalls(gs, func(ci CallInfo) bool { return ci.Name == "Sender" && ci.Invoke })
+		handled := len(calls) > 0
+		for _, c := range calls {
+			if !errHandled(c) {
+				handled = false
+			}
+		}
+		fromRecovered, fromField, signerFromParam := true, false, false
+		eachInstr(gs, func(in ssa.Instruction) {
+			ret, ok := in.(*ssa.Return)
+			if !ok || !isSuccessExit(in) {
+				return
+			}
+			sl := backSlice(retOperands(ret)[0])
+			if !sl.HasCall(func(ci CallInfo) bool { return ci.Name == "Sender" && ci.Invoke }) {
+				fromRecovered = false
+			}
+			if sl.HasField("MsgEthereumTx", "From") {
+				fromField = true
+			}
+		})
+		for _, c := range calls {
+			if backSlice(c.Common().Value).HasParam("chainID") {
+				signerFromParam = true
+			}
+		}
+		r.Check(w == nil && handled && fromRecovered && !fromField && signerFromParam, "R6", fnID(gs)+"#sender-recovered", P.Pos(fnPos(gs)), "sender = signer(chainID).Sender(AsTransaction()) on every success path",
+			fmt.Sprintf("GetSender can return a sender that was not recovered from the signature (path without Sender: %v, error-checked: %v, result from Sender: %v, result from the From field: %v, signer from chainID: %v): the envelope's From is attacker-controlled text, so signers/sender of the wrapped transaction no longer equal the Ethereum transaction's", w != nil, handled, fromRecovered, fromField, signerFromParam), P.witness(w)...)
+	} else {
+		r.Bad("R6", "anchor/MsgEthereumTx.GetSender", "", "not found")
+	}
+	if gsig, ok := P.FnOK("(*" + evmTypes + ".MsgEthereumTx).GetSigners"); ok {
+		okS := false
+		eachInstr(gsig, func(in ssa.Instruction) {
+			if ret, ok := in.(*ssa.Return); ok && len(ret.Results) > 0 {
+				if backSlice(ret.Results[0]).HasCall(func(ci CallInfo) bool { return ci.Name == "GetSender" }) {
+					okS = true
+				}
+			}
+		})
+		r.Check(okS, "R6", fnID(gsig)+"#signers-from-sender", P.Pos(fnPos(gsig)), "GetSigners = {GetSender(chain id of the tx data)}", "GetSigners no longer derives the signer from GetSender")
+	}
 	r.Rule("R5", "FLOW.access-list: in NewAccessList and ToEthAccessList the value stored into a tuple's StorageKeys is a slice allocated inside the per-tuple loop (make), filled from that tuple's keys; the tuple's Address derives from the source tuple's Address")
 	for _, id := range []string{evmTypes + ".NewAccessList", "(" + evmTypes + ".AccessList).ToEthAccessList"} {
 		fn, ok := P.FnOK(id)
